@@ -38,9 +38,10 @@ import (
 )
 
 type Conf struct {
-	Keys []string `json:"keys"`
-	Aud  string   `json:"aud"`
-	Iss  string   `json:"iss"`
+	Keys   []string `json:"keys"`
+	Aud    string   `json:"aud"`
+	Iss    string   `json:"iss"`
+	NoDisc bool     `json:"noDisc"` // disable_disconnect_on_expiry on every port
 }
 
 type Tok struct {
@@ -87,6 +88,8 @@ type Step struct {
 	Served string `json:"served"` // endpoint stamped by the upstream that served the request, "" if none
 	Hits   int    `json:"hits"`   // requests that reached any stamping upstream during this call
 	Reg    string `json:"reg"`    // Listen/Tenant: endpoint that got registered, "" if none
+	When   string `json:"when"`   // "before" / "after" the expiry of a token whose exp is "soon"
+	Seen   bool   `json:"seen"`   // the same token string was presented to this port before (and accepted)
 	Cmd    string `json:"cmd"`
 }
 
@@ -143,7 +146,7 @@ func initKeys(dir string) {
 }
 
 func authConfig(c Conf) auth.Config {
-	a := auth.Config{Audience: c.Aud, Issuer: c.Iss}
+	a := auth.Config{Audience: c.Aud, Issuer: c.Iss, DisableDisconnectOnExpiry: c.NoDisc}
 	for _, k := range c.Keys {
 		switch k {
 		case "HS":
@@ -160,6 +163,9 @@ func authConfig(c Conf) auth.Config {
 }
 
 // ---- tokens ----------------------------------------------------------------
+
+// a token whose exp is "soon" expires this long after it was made (exp has whole seconds)
+const soonAfter = 3 * time.Second
 
 type claims struct {
 	jwt.RegisteredClaims
@@ -190,6 +196,8 @@ func makeToken(t Tok, hmacKey []byte) string {
 		c.ExpiresAt = jwt.NewNumericDate(now.Add(-time.Hour))
 	case "future":
 		c.ExpiresAt = jwt.NewNumericDate(now.Add(time.Hour))
+	case "soon":
+		c.ExpiresAt = jwt.NewNumericDate(now.Add(soonAfter))
 	}
 	switch t.Nbf {
 	case "past":
@@ -642,8 +650,15 @@ func main() {
 						fmt.Fprintln(os.Stderr, "aeng:", err)
 						os.Exit(2)
 					}
-					authCase(w, s.Port, s.Route, s.Tok, s.Hdr)
+					if s.Tok.Exp == "soon" {
+						temporalCases(w, map[string][]string{s.Port: {s.Route}}, emit)
+					} else {
+						authCase(w, s.Port, s.Route, s.Tok, s.Hdr)
+					}
 					w.close()
+				case "TenantAuth":
+					route := s.Route
+					tenantAuthCases(s.Conf, s.Ten.NoDefault, func(*world) []string { return []string{route} }, emit)
 				case "Endpoint", "Listen":
 					w, err := newWorld(s.Conf, nil, []string{"e", "e1"})
 					if err != nil {
@@ -720,6 +735,36 @@ func main() {
 					w.close()
 				}
 			}
+		}
+		// time: a token is accepted until it expires, however often it was accepted before
+		for i, ks := range sf.KeySets {
+			if i > 0 && sf.Random < 100 {
+				break // quick tier: the first key configuration only
+			}
+			for _, noDisc := range []bool{false, true} {
+				c := Conf{Keys: ks, NoDisc: noDisc}
+				w, err := newWorld(c, nil, []string{"e", "e1"})
+				if err != nil {
+					fmt.Fprintln(os.Stderr, "aeng: start:", err)
+					os.Exit(2)
+				}
+				reset()
+				ports := map[string][]string{}
+				for port, rs := range w.routes {
+					for _, r := range rs {
+						if !strings.Contains(r, "seconds=1") && len(ports[port]) < 4 {
+							ports[port] = append(ports[port], r)
+						}
+					}
+				}
+				temporalCases(w, ports, emit)
+				w.close()
+			}
+		}
+		// an upstream port with a tenant table, with and without a default key
+		reset()
+		for _, noDefault := range []bool{true, false} {
+			tenantAuthCases(Conf{Keys: []string{"HS"}}, noDefault, func(w *world) []string { return w.routes["upstream"] }, emit)
 		}
 	} else {
 		confs := [][]string{{"HS"}}
@@ -875,6 +920,73 @@ func tenantCases(c Conf, tens []Ten, emit func(*Step)) {
 	}
 	for _, w := range worlds {
 		w.close()
+	}
+}
+
+// temporalCases: tokens that are valid when first presented and have expired when presented again, on every
+// port, with and without disable_disconnect_on_expiry; plus a token first presented after its expiry.
+func temporalCases(w *world, ports map[string][]string, emit func(*Step)) {
+	t := goodTok(w.conf)
+	t.Exp = "soon"
+	h := Hdr{X: "absent", Authz: "good", Scheme: "Bearer"}
+	made := time.Now()
+	again := makeToken(t, hmacConf)
+	t2 := t
+	t2.Eps = []string{"e"} // a different token string, never presented before its expiry
+	fresh := makeToken(t2, hmacConf)
+	present := func(tok Tok, str, when string, seen bool) {
+		for _, port := range []string{"proxy", "upstream", "admin"} {
+			for _, route := range ports[port] {
+				before := w.hits()
+				st, served := w.send(port, route, h, str, Tgt{Host: "e"}, "")
+				emit(&Step{Op: "Auth", Port: port, Route: route, Conf: w.conf, Tok: tok, Hdr: h, Tgt: Tgt{Host: "e"},
+					Status: st, Served: served, Hits: w.hits() - before, When: when, Seen: seen})
+			}
+		}
+	}
+	present(t, again, "before", false)
+	present(t, again, "before", true)
+	if d := time.Until(made.Add(soonAfter + 1200*time.Millisecond)); d > 0 {
+		time.Sleep(d)
+	}
+	present(t, again, "after", true)
+	present(t2, fresh, "after", false)
+}
+
+// tenantAuthCases: plain requests to the routes of an upstream port that has a tenant table, with and without a
+// default key: nothing gets past the middleware without a token of the named tenant.
+func tenantAuthCases(c Conf, noDefault bool, routes func(w *world) []string, emit func(*Step)) {
+	secrets := map[string][]byte{"default": hmacConf, "t1": []byte("tenant-one-secret")}
+	tcs := []config.TenantConfig{{ID: "t1", Auth: auth.Config{HMACSecretKey: string(secrets["t1"])}}}
+	w, err := newWorldOpt(c, tcs, nil, noDefault)
+	if err != nil {
+		fmt.Fprintln(os.Stderr, "aeng: start tenants:", err)
+		os.Exit(2)
+	}
+	defer w.close()
+	good := Hdr{X: "absent", Authz: "good", Scheme: "Bearer"}
+	none := Hdr{X: "absent", Authz: "absent", Scheme: "Bearer"}
+	type tc struct {
+		h      Hdr
+		signer string
+		sfor   string
+		tenant string
+	}
+	cases := []tc{
+		{none, "conf", "default", ""}, {none, "conf", "t1", "t1"}, {none, "conf", "t1", "tx"},
+		{good, "conf", "default", ""}, {good, "conf", "t1", ""}, {good, "conf", "t1", "t1"},
+		{good, "conf", "default", "t1"}, {good, "other", "t1", "t1"}, {good, "conf", "t1", "tx"},
+		{good, "unsigned", "t1", "t1"},
+	}
+	for _, route := range routes(w) {
+		for _, x := range cases {
+			t := goodTok(c)
+			t.Signer = x.signer
+			tokStr := makeToken(t, secrets[x.sfor])
+			st, _ := w.send("upstream", route, x.h, tokStr, Tgt{}, x.tenant)
+			emit(&Step{Op: "TenantAuth", Port: "upstream", Route: route, Conf: c, Tok: t, Hdr: x.h,
+				Ten: Ten{Table: []string{"t1"}, Hdr: x.tenant, SignedFor: x.sfor, NoDefault: noDefault}, Status: st})
+		}
 	}
 }
 
